@@ -712,7 +712,7 @@ def report(ctx, recs, fails):
             data = {"clause": clause, "source": r["src"], "class": m.get("class"), "category": m.get("cat"), "form": m.get("form"),
                     "features": m.get("feats"), "writer": {"exc": m.get("wexc"), "site": m.get("wsite"), "detail": m.get("wdetail")},
                     "reader": {"exc": m.get("rexc"), "site": m.get("rsite"), "detail": m.get("rdetail")},
-                    "impl_eq": r["eq"], "str_eq": m.get("streq"), "kind_original": r["ka"], "kind_read_back": r["kb"], "job": m.get("job")}
+                    "impl_eq": r["eq"], "impl_eq_exc": m.get("eq_exc"), "str_eq": m.get("streq"), "kind_original": r["ka"], "kind_read_back": r["kb"], "job": m.get("job")}
             if clause.startswith("upj-") and r["cls"] == "problem" and r["mode"] == "proj":
                 sec = clause[4:]
                 data["original"], data["read_back"] = r["a"].get(sec), r["b"].get(sec)
